@@ -177,6 +177,17 @@ def keys_of(a):
     return [int(k) for k in ks]
 
 
+def keys_perm(a, perm):
+    """keys of the rows of `a._qdata[:, perm]` (what itranspose(perm) produces)"""
+    if len(a._qdata) == 0:
+        return []
+    stride, ks = 1, np.zeros(len(a._qdata), dtype=np.int64)
+    for ax in perm:
+        ks = ks + a._qdata[:, ax].astype(np.int64) * stride
+        stride *= max(1, a.legs[ax].block_number)
+    return [int(k) for k in ks]
+
+
 def lflag(l, pipe=False):
     return int(l.qconj > 0) + 2 * int(bool(l.sorted)) + 4 * int(bool(l.bunched)) + (8 if pipe else 0)
 
@@ -547,8 +558,21 @@ class Walk:
         if not isinstance(r, self.npc.Array):
             H.end('tensordot.scalar', calls)
             return
-        lay = [4 * x for x in range(a.rank) if x not in axes_a] + [4 * x + 1 for x in range(b.rank) if x not in axes_b]
-        calls.append(call('fresh', a=[i, jref], n=[dcode(r.dtype)], l=[lay, keys_of(r), []], b=[False, r._qdata_sorted], res='a'))
+        # _tensordot_transpose_axes: shallow copies of both operands, itranspose on the copies (temporaries of the model),
+        # then the worker builds the result from the transposed copies
+        ntmp = sum(1 for c in calls if c['res'] == 't')
+        perm_a = [x for x in range(a.rank) if x not in axes_a] + axes_a
+        perm_b = axes_b + [x for x in range(b.rank) if x not in axes_b]
+        calls.append(call('copy', a=[i], b=[False], res='t'))
+        calls.append(call('copy', a=[jref], b=[False], res='t'))
+        ta, tb = -1 - ntmp, -2 - ntmp
+        for ref, arr, perm in ((ta, a, perm_a), (tb, b, perm_b)):
+            if perm != list(range(arr.rank)):
+                vf = [int(np.transpose(t, perm).flags['C_CONTIGUOUS']) for t in arr._data]
+                calls.append(call('itranspose', a=[ref], l=[perm, keys_perm(arr, perm), vf]))
+        cut = a.rank - len(axes_a)
+        lay = [4 * x for x in range(cut)] + [4 * x + 1 for x in range(len(axes_b), b.rank)]
+        calls.append(call('fresh', a=[ta, tb], n=[dcode(r.dtype)], l=[lay, keys_of(r), []], b=[False, r._qdata_sorted], res='a'))
         H.end('tensordot.' + mode, calls, new_arrs=[r], deep=0)
 
     def op_outer(self):
